@@ -9,7 +9,7 @@ CLAUSES = {
 }
 TRUSTED = [
     "Coq 8.16.1 kernel (coqc); vm_compute",
-    "harness/c04 (Go generator of directive trees, a share of them passed through the real configuration parser as text; address.ForLookup, dns.ForLookup, validMatchRule, address.Split, the static tables and the real replace_rcpt / replace_sender modifiers recorded as tables per case on the closure of the strings the case can reach)",
+    "harness/c04 (Go generator of directive trees, a share of them passed through the real configuration parser as text; address.ForLookup, dns.ForLookup, validMatchRule, address.Split, the static tables recorded as tables per case on the closure of the strings the case can reach; the rewriting oracles rw_s / rw_r are NOT recorded from the implementation: they are the documented semantics of replace_sender / replace_rcpt (entry for the whole lookup form, else for the local part, replacements without a domain keep the address's domain; invalid replacements refuse) evaluated by the harness function vRefRewrite on a copy of the tables as configured - a 30-line Go reference that is part of the trusted base)",
     "Pipeline/Route.v is a hand-written model of parseMsgPipeline*Cfg and of Start / AddRcpt routing; checks, DMARC, body handling and target failures are outside it (C06, C03)",
     "Pipeline/Spec.v (the documented rules on the directive tree) is the reference of the monitor; its equality with Route.v on every accepted configuration and envelope is a theorem (C04_route_eq_spec: whole messages, through rewrites and nested reroute; C04_selection_is_documented_precedence_*: the block selected per scope) under the hypothesis that a directive without a block has no children - evaluated on every generated case (tag bit 128, an obligation)",
 ]
